@@ -9,7 +9,8 @@
 (* Runs are concatenated with Reset events.  Focus selects which fields of *)
 (* the observations are compared: "C01" structure, "C02" annotations,      *)
 (* "C03" information content (consistency with the ontology's own n, N),   *)
-(* "C04" pair queries (similarity arguments and formulas).                 *)
+(* "C04" pair queries (similarity arguments and formulas), "C11" distances *)
+(* and paths, "C12" ancestor queries as set algebra.                       *)
 (***************************************************************************)
 EXTENDS HpoSetOps, Json, IOUtils
 
@@ -124,13 +125,31 @@ TSubErr ==
 (* pair queries on the built ontology (focus C04): the structural arguments of the similarities  *)
 (* must be the ones the specification derives; the recorder has evaluated the eight formulas on   *)
 (* exactly these arguments (sim_bad lists disagreements)                                          *)
+Linked(x, y) == x \in parents[y] \/ y \in parents[x]
+IsChain(a, path) == \A i \in 1..Len(path) : path[i] \in parents[IF i = 1 THEN a ELSE path[i - 1]]
+IsWalk(a, path) == \A i \in 1..Len(path) : Linked(IF i = 1 THEN a ELSE path[i - 1], path[i])
+
 QueryMatches(ev) ==
   LET p == PathPair(ev.a, ev.b) IN
-  (Focus = "C04") =>
-    /\ ev.common = p.commonself
-    /\ ev.union = p.union
-    /\ ev.dist = p.dist
-    /\ ev.sim_bad = <<>>
+  /\ (Focus = "C04") =>
+       /\ ev.common = p.commonself
+       /\ ev.union = p.union
+       /\ ev.dist = p.dist
+       /\ ev.sim_bad = <<>>
+  \* C12: ancestor queries are the set algebra of the ancestor sets
+  /\ (Focus = "C12") =>
+       /\ ev.common = p.commonself /\ ev.common_noself = p.common /\ ev.union = p.union
+  \* C11: distances and paths
+  /\ (Focus = "C11") =>
+       /\ ev.dist = p.dist /\ ev.rdist = p.dist /\ ev.updist = p.updist
+       /\ IF ev.hasuppath
+            THEN p.updist # NoDist /\ Len(ev.uppath) = p.updist /\ IsChain(ev.a, ev.uppath)
+                 /\ (ev.a # ev.b => ev.uppath[Len(ev.uppath)] = ev.b)
+            ELSE p.updist = NoDist
+       /\ IF ev.haspath
+            THEN p.dist # NoDist /\ (ev.a # ev.b => /\ Len(ev.path) = p.dist /\ IsWalk(ev.a, ev.path)
+                                                    /\ ev.path[Len(ev.path)] = ev.b)
+            ELSE p.dist = NoDist
 
 TQuery == Ev("Query") /\ Step /\ phase = "connected" /\ QueryMatches(Rec[l]) /\ UNCHANGED coreVars
 
